@@ -59,6 +59,7 @@ type muxOp struct {
 	sel    int
 	bad    bool
 	badPID uint16
+	badGone bool // bad: prefer a PID that was added and removed earlier in the history (when there is one)
 	// Data
 	pes      *ref.PES
 	af       *ref.AF
@@ -165,6 +166,7 @@ func drawMuxOp(t *rapid.T, prof muxProfile) muxOp {
 	if prof.invalid && gen.Chance(t, 12, "bad") {
 		op.bad = true
 		op.badPID = uint16(rapid.SampledFrom([]int{0x00, 0x11, 0x30, 0x1000, 0x1fff, 0x1234}).Draw(t, "badpid"))
+		op.badGone = gen.Chance(t, 50, "badgone")
 	}
 	switch op.kind {
 	case opAdd:
@@ -469,6 +471,7 @@ func runMuxHistoryUnguarded(period int, setPeriod bool, ops []muxOp, w *writerSp
 	var replay []func(*astits.Muxer)
 	predAuto := uint16(0x100)
 	var lastAF *astits.PacketAdaptationField
+	var gone []uint16 // PIDs removed so far (a later Add may have brought one back: target() then reports it as known)
 	var lastAFModel *ref.AF
 	for i := range ops {
 		op := &ops[i]
@@ -479,6 +482,8 @@ func runMuxHistoryUnguarded(period int, setPeriod bool, ops []muxOp, w *writerSp
 				pid := op.badPID
 				if !op.bad {
 					pid = 0x0abc
+				} else if op.badGone && len(gone) > 0 {
+					pid = gone[op.sel%len(gone)]
 				}
 				return pid, cfg.find(pid) >= 0
 			}
@@ -537,6 +542,7 @@ func runMuxHistoryUnguarded(period int, setPeriod bool, ops []muxOp, w *writerSp
 					cfg.streams = append(cfg.streams[:i:i], cfg.streams[i+1:]...)
 				}
 				p := pid
+				gone = append(gone, pid)
 				replay = append(replay, func(m *astits.Muxer) { _ = m.RemoveElementaryStream(p) })
 				st.changed = true
 			}
